@@ -117,7 +117,13 @@ def stage1(worker, n):
         if b.returncode != 0:
             print(m['id'], 'does-not-compile', file=log, flush=True)
             continue
-        t = subprocess.run(['cargo', 'test', '--offline', '--no-fail-fast'], cwd=wt, env=env, capture_output=True, text=True)
+        try:
+            t = subprocess.run(['cargo', 'test', '--offline', '--no-fail-fast'], cwd=wt, env=env, capture_output=True, text=True, timeout=600)
+        except subprocess.TimeoutExpired:
+            # a mutant that makes a test hang (an interval that never stops): the suite does not pass
+            subprocess.run(['pkill', '-f', f'{wt}/target/debug/deps/'])
+            print(m['id'], 'killed-by-the-test-suite (a test hangs)', file=log, flush=True)
+            continue
         passed = sum(int(x.split()[3]) for x in t.stdout.split('\n') if x.startswith('test result'))
         failed = sum(int(x.split()[5]) for x in t.stdout.split('\n') if x.startswith('test result'))
         if t.returncode == 0 and failed == 0 and passed >= 61:
